@@ -8,7 +8,9 @@
  *
  *   T                       -> table dump (constants, unary, binary functions, external operators)
  *   P <f>                   -> ok <getCxxFormula>            | err <what>
- *   V <x=hex,..>;<f>        -> val <hex bits of getValue()>  | err <what>
+ *   V <x=hex,..>;<f>        -> val <hex bits of getValue()>  | err <what>   (+ " API-DIFF <what>=<bits>" when another
+ *                              way of the public API to the same value disagrees: copies, assignment, getValue(map),
+ *                              operator(), setVariableValue by position / C string, fixed variable lists, managers)
  *   Q <v,..>;<p,..>;<f>     -> Evaluator(vars,f,manager), createFunctionByChangingParametersIntoVariables(p)
  *   D <var>;<f>             -> ok <differentiate(var)->getCxxFormula> | err <what>
  *   E <var>;<x=hex,..>;<f>  -> val <hex bits of differentiate(var)->getValue()> | err <what>
@@ -184,7 +186,161 @@ static void dumpTables() {
   for (const auto& f : m.extOpGenerators) {
     std::cout << "extop " << f.first << "\n";
   }
+  // references stated independently of Evaluator.cxx: the documented constant each name stands for
+  // (include/TFEL/PhysicalConstants.hxx) and the value of every registered function at two sample points
+  {
+    using PC = tfel::PhysicalConstants<double>;
+    const std::map<std::string, double> ref = {
+        {"Cste::AtomicMassConstant", PC::AtomicMassConstant}, {"Cste::mu", PC::AtomicMassConstant},
+        {"Cste::AvogadroConstant", PC::AvogadroConstant}, {"Cste::Na", PC::AvogadroConstant},
+        {"Cste::BoltzmannConstant", PC::BoltzmannConstant}, {"Cste::kb", PC::BoltzmannConstant},
+        {"Cste::ConductanceQuantum", PC::ConductanceQuantum}, {"Cste::G0", PC::ConductanceQuantum},
+        {"Cste::ElectricConstant", PC::ElectricConstant}, {"Cste::e0", PC::ElectricConstant},
+        {"Cste::ElectronMass", PC::ElectronMass}, {"Cste::me", PC::ElectronMass},
+        {"Cste::ElectronVolt", PC::ElectronVolt}, {"Cste::eV", PC::ElectronVolt},
+        {"Cste::ElementaryCharge", PC::ElementaryCharge}, {"Cste::e", PC::ElementaryCharge},
+        {"Cste::FaradayConstant", PC::FaradayConstant}, {"Cste::F", PC::FaradayConstant},
+        {"Cste::FineStructureConstant", PC::FineStructureConstant}, {"Cste::a", PC::FineStructureConstant},
+        {"Cste::MolarGasConstant", PC::MolarGasConstant}, {"Cste::R", PC::MolarGasConstant},
+        {"Cste::StefanBoltzmannConstant", PC::StefanBoltzmannConstant}, {"Cste::s", PC::StefanBoltzmannConstant}};
+    for (const auto& c : m.constants) {
+      const auto p = ref.find(c.first);
+      double got = 0;
+      std::string how = "val";
+      try {
+        Evaluator ev(c.first + "*1");
+        got = ev.getValue();
+      } catch (std::exception&) {
+        how = "err";
+      }
+      std::cout << "constref " << c.first << " " << (p == ref.end() ? std::string("?") : hexbits(p->second)) << " "
+                << how << " " << hexbits(got) << "\n";
+    }
+    for (const auto& f : m.fctGenerators) {
+      std::cout << "uval " << f.first;
+      for (const double x0 : {0.3, 1.7, -0.6, 0.0}) {
+        try {
+          Evaluator ev(f.first + "(x)");
+          ev.setVariableValue("x", x0);
+          std::cout << " " << hexbits(ev.getValue());
+        } catch (std::exception&) {
+          std::cout << " err";
+        }
+      }
+      std::cout << "\n";
+    }
+    for (const auto& f : m.bFctGenerators) {
+      std::cout << "bval " << f.first;
+      for (const auto& pt : std::vector<std::pair<double, double>>{{1.7, 0.3}, {0.3, 1.7}, {-0.6, 0.25}}) {
+        try {
+          Evaluator ev(f.first + "(x,y)");
+          ev.setVariableValue("x", pt.first);
+          ev.setVariableValue("y", pt.second);
+          std::cout << " " << hexbits(ev.getValue());
+        } catch (std::exception&) {
+          std::cout << " err";
+        }
+      }
+      std::cout << "\n";
+    }
+  }
   std::cout << "end" << std::endl;
+}
+
+//! `s` (a getCxxFormula string) with every whole identifier that is a key of `m` replaced
+static std::string substituteNames(const std::string& s, const std::map<std::string, std::string>& m) {
+  std::string r;
+  std::string::size_type i = 0;
+  auto idc = [](const char c) { return std::isalnum(static_cast<unsigned char>(c)) || c == '_'; };
+  while (i < s.size()) {
+    const char c = s[i];
+    const bool start = (std::isalpha(static_cast<unsigned char>(c)) || c == '_') &&
+                       (i == 0 || !(idc(s[i - 1]) || s[i - 1] == ':' || s[i - 1] == '.'));
+    if (!start) {
+      r += c;
+      ++i;
+      continue;
+    }
+    auto j = i;
+    while (j < s.size() && idc(s[j])) ++j;
+    if (j < s.size() && s[j] == '[') {
+      const auto k = s.find(']', j);
+      if (k != std::string::npos && m.count(s.substr(i, k + 1 - i)) != 0) j = k + 1;
+    }
+    const auto tok = s.substr(i, j - i);
+    const auto p = m.find(tok);
+    r += (p == m.end()) ? tok : p->second;
+    i = j;
+  }
+  return r;
+}
+
+//! the values given by a binding string for the variables of `ev`
+static std::map<std::string, double> pointOf(const Evaluator& ev, const std::string& b) {
+  std::map<std::string, double> r;
+  if (b.empty()) return r;
+  const auto names = ev.getVariablesNames();
+  for (const auto& kv : split(b, ',')) {
+    const auto p = kv.find('=');
+    if (p == std::string::npos) continue;
+    const auto n = kv.substr(0, p);
+    if (std::find(names.begin(), names.end(), n) == names.end()) continue;
+    r[n] = frombits(kv.substr(p + 1));
+  }
+  return r;
+}
+
+/*!
+ * every other way the public API offers to reach the value of formula `f` at the point `b` must give the
+ * bits of `v` = Evaluator(f) + setVariableValue(name) + getValue(): copies and assigned evaluators (which
+ * must own their variables: the source is moved away first), getValue(map), operator(), values set by
+ * position / C string, evaluators built on a fixed variable list (with and without function manager).
+ */
+static std::string apiConsistency(Evaluator& ev, const std::string& f, const std::string& b, const double v) {
+  std::string r;
+  auto chk = [&r, v](const char* what, const double x) {
+    if (hexbits(x) != hexbits(v) && !((x != x) && (v != v))) r += std::string(" API-DIFF ") + what + "=" + hexbits(x);
+  };
+  const auto pt = pointOf(ev, b);
+  Evaluator cp(ev);
+  Evaluator as;
+  as = ev;
+  bindShifted(ev, b, 2.75);
+  chk("copy.getValue()", cp.getValue());
+  chk("copy()", cp());
+  chk("assigned.getValue()", as.getValue());
+  chk("getValue(map)", ev.getValue(pt));
+  bindShifted(ev, b, -1.5);
+  chk("operator()(map)", ev(pt));
+  Evaluator e2(f);
+  for (const auto& nv : pt) e2.setVariableValue(e2.getVariablePosition(nv.first), nv.second);
+  chk("setVariableValue(position)", e2.getValue());
+  Evaluator e3(f);
+  for (const auto& nv : pt) e3.setVariableValue(nv.first.c_str(), nv.second);
+  chk("setVariableValue(const char*)", e3());
+  auto vars = ev.getVariablesNames();
+  std::reverse(vars.begin(), vars.end());
+  vars.push_back("unused_w9");
+  auto m = std::make_shared<tfel::math::parser::ExternalFunctionManager>();
+  Evaluator e4(vars, f);
+  Evaluator e5(vars, f, m);
+  Evaluator e6(f, m);
+  for (const auto& nv : pt) {
+    e4.setVariableValue(nv.first, nv.second);
+    e5.setVariableValue(nv.first, nv.second);
+    e6.setVariableValue(nv.first, nv.second);
+  }
+  chk("Evaluator(vars,f)", e4.getValue());
+  chk("Evaluator(vars,f,manager)", e5.getValue());
+  chk("Evaluator(f,manager)", e6.getValue());
+  for (std::vector<std::string>::size_type k = 0; k != vars.size(); ++k) {
+    if (e4.getVariablePosition(vars[k]) != k || e5.getVariablePosition(vars[k]) != k) {
+      r += " API-DIFF position-of-" + vars[k];
+      break;
+    }
+  }
+  if (e4.getNumberOfVariables() != vars.size()) r += " API-DIFF getNumberOfVariables";
+  return r;
 }
 
 int main() {
@@ -212,6 +368,16 @@ int main() {
         std::cout << "ok " << s;
         if (s2 != s) std::cout << " RESOLVE-DIFF " << s2;
         if (s3 != s) std::cout << " CLONE-DIFF " << s3;
+        {
+          // getCxxFormula(m): the variables renamed by `m`, nothing else changed
+          std::map<std::string, std::string> sub;
+          auto k = 0;
+          for (const auto& n : ev.getVariablesNames()) {
+            if ((k++ % 2) == 0 || n.size() > 1) sub[n] = "s_" + std::to_string(k) + "_";
+          }
+          const auto s4 = ev.getCxxFormula(sub);
+          if (s4 != substituteNames(s, sub)) std::cout << " SUBST-DIFF " << s4;
+        }
         std::cout << std::endl;
       } else if (k == 'V') {
         const auto f = fields(a, 1);
@@ -221,9 +387,10 @@ int main() {
         const auto v = ev.getValue();
         auto r = std::dynamic_pointer_cast<Evaluator>(ev.resolveDependencies());
         const auto v2 = r->getValue();
+        const auto api = apiConsistency(ev, f[1], f[0], v);
         std::cout << "val " << hexbits(v);
         if (hexbits(v2) != hexbits(v)) std::cout << " RESOLVE-DIFF " << hexbits(v2);
-        std::cout << std::endl;
+        std::cout << api << std::endl;
       } else if (k == 'Q') {
         const auto f = fields(a, 2);
         if (f.size() != 3) throw std::runtime_error("bad-request");
